@@ -90,9 +90,9 @@ def obligations(tier):
         obs += [
             parse_ob("unix_ui", 3, prefix="//u@unix:", flags=8, extra=["VP_WIT_UNIX", "VP_WIT_UNIX_UI"], timeout=T,
                      desc="components + parse-join-parse: '//u@unix:' + any string <= 3 bytes, UNIX_SOCKET"),
-            parse_ob("split_v6", 4, prefix="//[", extra=SP + ["VP_WIT_V6"], timeout=T,
+            parse_ob("split_v6", 4, prefix="//[", extra=SP + ["VP_WIT_V6ONLY", "VP_NO_WIT_QF"], timeout=T,
                      desc="RFC 3986 components + completeness: '//[' + any string <= 4 bytes (IP-literals), all 8 flag combinations"),
-            parse_ob("rt_v6", 4, prefix="//[", extra=RT + ["VP_WIT_V6"], timeout=T,
+            parse_ob("rt_v6", 4, prefix="//[", extra=RT + ["VP_WIT_V6ONLY", "VP_NO_WIT_QF"], timeout=T,
                      desc="parse-join-parse: '//[' + any string <= 4 bytes (IP-literals, HOST_STRIP_BRACKETS), all 8 flag combinations"),
             setters_ob("set_host", ku=1, kh=2, port=(-2, 99), kp=2, extra=["VP_WIT_FULL"], timeout=T, desc="setters+join: userinfo<=1 host<=2 port in [-2,99] path<=2, all flags"),
             setters_ob("set_unix", ku=1, kh=0, kx=2, port=(-1, 0), kp=2, flags=8, timeout=T, desc="setters+join, UNIX_SOCKET: userinfo<=1 host<=0 socket<=2 port in [-1,0] path<=2"),
